@@ -367,6 +367,26 @@ def run_visit_guard(ctx: Ctx) -> RuleResult:
                             'transformed again its packed children are all discarded (resolve mode) -- IndexError / missing subtree for '
                             'forests that share the node' % (m.name, attr), construct='mark-not-consumed:' + m.name)
     res.require_instances(n_gate, 2, 'transform functions gated by the success mark')
+    # memo tables keyed by id(node) do not outlive the walk: ids are recycled once a forest is garbage collected, so a table that
+    # survives `visit` serves entries of a dead forest to the next one
+    idkeyed = set()
+    for m in ftp.swept_methods():
+        for c, b_ in find_pat(m.body_nodes(), '$me.$attr[id($n)]') + find_pat(m.body_nodes(), 'id($n) in $me.$attr'):
+            # dict-like tables only (subscripted somewhere)
+            if find_pat([x for mm in ftp.swept_methods() for x in mm.body_nodes()], '$me.%s[id($n)]' % b_['attr']):
+                idkeyed.add(b_['attr'])
+    vis = ftp.methods.get('visit')
+    n_tab = 0
+    for attr in sorted(idkeyed):
+        n_tab += 1
+        ok = vis is not None and any(isinstance(a, ast.Assign) and len(a.targets) == 1 and norm(a.targets[0]).endswith('.' + attr)
+                                     and isinstance(a.value, (ast.Dict, ast.Call)) for a in vis.body_nodes())
+        res.ob('%s %s' % (vis.loc() if vis else '', 'ForestToParseTree.visit'), 'the id-keyed table self.%s is renewed by every walk' % attr, ok)
+        if not ok:
+            res.finding(vis or ftp.qual, vis.node if vis else ftp.node, 'the table self.%s, keyed by id(node), is not renewed in visit(): a transformer '
+                        'object used for a second forest can hit entries of the first (ids are recycled after garbage collection) -- wrong, '
+                        'missing or duplicated subtrees' % attr, construct='id-table-not-renewed:' + attr, module=ftp.module)
+    res.require_instances(n_tab, 1, 'id-keyed tables of ForestToParseTree')
     return res
 
 
@@ -504,5 +524,47 @@ def run_scan_buffer(ctx: Ctx) -> RuleResult:
     res.ob('%s %s' % (x.loc(), x.qual), 'every item of the scan buffer is carried over an ignored match (to the end of that match)', ok)
     if not ok:
         res.finding(x, x.node, 'the dynamic scanner does not carry the whole scan buffer over ignored text', construct='carry-over')
-    res.require_instances(n, 3, 'scan-buffer obligations')
+    # dynamic_complete: every proper prefix of the longest match is tried (no early exit), and every match -- full or prefix -- is
+    # filed under the position where *that* match ends
+    pl = [l for l in x.body_nodes() if isinstance(l, ast.For) and isinstance(l.iter, ast.Call) and norm(l.iter.func) == 'range'
+          and any('len(' in norm(a_) for a_ in l.iter.args)]
+    okl = len(pl) == 1 and not any(isinstance(y, (ast.Break, ast.Return)) for y in ast.walk(pl[0])) \
+        and not any(isinstance(y, ast.Continue) for y in ast.walk(pl[0]))
+    n += 1
+    res.ob('%s %s' % (x.loc(), x.qual), 'the prefix loop of dynamic_complete tries every shorter prefix (no break / continue / return)', okl)
+    if not okl:
+        res.finding(x, pl[0] if pl else x.node, 'the loop over shorter prefixes of a match can stop early: token lengths that only a later '
+                    'prefix produces are never queued, and their derivations are missing', construct='prefix-loop-exit')
+    filed = find_pat(x.body_nodes(), '$dm[$$k].append(($it, $i, $t))')
+    okk = len(filed) >= 2
+    for c, b_ in filed:
+        tdef = [a_ for a_ in x.body_nodes() if isinstance(a_, ast.Assign) and len(a_.targets) == 1 and norm(a_.targets[0]) == b_['t']
+                and isinstance(a_.value, ast.Call) and norm(a_.value.func) == 'Token' and a_.lineno <= c.lineno]
+        if not tdef:
+            okk = False
+            continue
+        tdef = max(tdef, key=lambda a_: a_.lineno)
+        mg = find_pat([tdef.value.args[1]] if len(tdef.value.args) > 1 else [], '$m.group(0)')
+        if not mg:
+            okk = False
+            continue
+        mvar = mg[0][1]['m']
+        mdef = [a_ for a_ in x.body_nodes() if isinstance(a_, ast.Assign) and len(a_.targets) == 1 and norm(a_.targets[0]) == mvar
+                and a_.lineno <= tdef.lineno]
+        mdef = max(mdef, key=lambda a_: a_.lineno) if mdef else None
+        on_slice = mdef is not None and isinstance(mdef.value, ast.Call) and len(mdef.value.args) == 2   # match(term, s[:-j]): relative to i
+        want_k = {('%s + %s.end()' % (b_['i'], mvar)) if on_slice else '%s.end()' % mvar}
+        from ..exprs import linear, lin_str
+        got = lin_str(linear(ast.parse(b_['$$k'], mode='eval').body))
+        wantl = lin_str(linear(ast.parse(sorted(want_k)[0], mode='eval').body))
+        if got != wantl:
+            okk = False
+            res.finding(x, c, 'a delayed match is filed under %s, but the token it carries ends at %s: the parser completes the terminal at a '
+                        'position its text does not reach (phantom derivations whose tokens do not spell the input)' % (b_['$$k'], sorted(want_k)[0]),
+                        construct='delayed-key:%s' % got)
+    n += 1
+    res.ob('%s %s' % (x.loc(), x.qual), 'delayed matches are filed under the end position of their own match', okk)
+    if not okk and not any('delayed-key' in f_.key for f_ in res.findings):
+        res.finding(x, x.node, 'cannot find the two filing sites of delayed matches keyed by the match end', construct='delayed-key:shape')
+    res.require_instances(n, 5, 'scan-buffer obligations')
     return res
